@@ -172,6 +172,9 @@ func init() {
 			if bound <= sc.child() || bound > sc.child()+12 || bound >= w.net.HardforkV2.RequireHeight {
 				continue
 			}
+			if (b.name == "asic" && (b.h >= w.net.HardforkFoundation.Height || b.h >= w.net.HardforkV2.AllowHeight)) || (b.name == "foundation" && b.h >= w.net.HardforkV2.AllowHeight) {
+				continue // out-of-order hardforks of a drawn network: the later era's prefix is already in force
+			}
 			var sfid types.SiafundOutputID
 			found := false
 			for _, id := range sc.store.sortedSF() {
